@@ -2,6 +2,7 @@
 """Print the prompt for a seeding sub-agent: python tools/seed_prompt.py C01 a  -> worktree /tmp/seed-C01-a"""
 import json, sys
 pid, tag = sys.argv[1], sys.argv[2]
+avoid = sys.argv[3] if len(sys.argv) > 3 else ''
 for l in open('/verif/properties.jsonl'):
     p = json.loads(l)
     if p['id'] == pid:
@@ -30,12 +31,14 @@ an unusual but legal input - not something that ordinary use would expose at onc
 very first simplest call). Do not edit the tests. Do not add obviously artificial triggers such as magic constants or
 `if x == 12345`.
 
+{('Another contributor already seeded this change for the same property - pick a DIFFERENT mechanism and a different part of the code: ' + avoid) if avoid else ''}
+
 Deliver, in the directory {out} (create it):
   1. patch.diff  - `git -C {wt} diff` of your change (must apply with `git apply` to a clean checkout of the same commit);
   2. demo.py     - a small standalone program taking the library root as argv[1] (default {wt}), which inserts it in
                    sys.path, imports desper, exercises the public API and exits 0 when the property holds on what it
                    exercises and exits 1 (printing what went wrong) when it does not. It must exit 1 with your change
-                   applied and exit 0 on the unchanged library (verify both: `git -C {wt} stash` / `stash pop`).
+                   applied and exit 0 on the unchanged library (verify both ways WITHOUT git stash - the stash is shared between worktrees and other people are working in sibling worktrees: save `git -C {wt} diff > {out}/patch.diff`, then `git -C {wt} checkout -- .` to test the unchanged library and `git -C {wt} apply {out}/patch.diff` to restore your change).
   3. notes.md    - 5-10 lines: what you changed, why the tests do not notice, what exactly is needed for it to manifest.
 Confirm yourself that the test suite passes with the change applied. Leave the change applied in the worktree when
 you finish. Reply with a short summary (what the change is, what it needs to manifest, and that you verified demo.py
